@@ -805,7 +805,91 @@ Section Maps.
   Qed.
 End Maps.
 
+
+(* ====================== the derivative mark ' and the delimiter set (finding C15-primed-lhs) ====================== *)
+Lemma wordsA_agree isd1 isd2 : forall s cur, (forall c, In c s -> isd1 c = isd2 c) -> wordsA isd1 cur s = wordsA isd2 cur s.
+Proof.
+  induction s as [|c s IH]; intros cur H; [reflexivity|]. cbn [wordsA]. rewrite <- (H c (or_introl eq_refl)).
+  destruct (isd1 c); [f_equal; f_equal|]; apply IH; intros x Hx; apply H; now right.
+Qed.
+
+Lemma memc_app c a b : memc c (a ++ b) = memc c a || memc c b.
+Proof. unfold memc. apply existsb_app. Qed.
+Lemma delim_gen_true c : is_delim_gen true c = is_delim_gen false c || Ascii.eqb c quote.
+Proof. unfold is_delim_gen, allowed_gen. rewrite memc_app. unfold memc at 2. cbn [existsb]. now rewrite orb_false_r. Qed.
+Lemma delim_gen_mono fx c : is_delim_gen fx c = true -> is_delim_spec c = true.
+Proof. unfold is_delim_spec. destruct fx; [auto|]. rewrite delim_gen_true. intros ->. reflexivity. Qed.
+Lemma delim_gen_agree fx c : c <> quote -> is_delim_gen fx c = is_delim_spec c.
+Proof.
+  unfold is_delim_spec. destruct fx; [reflexivity|]. intro H. rewrite delim_gen_true.
+  destruct (Ascii.eqb c quote) eqn:E; [apply Ascii.eqb_eq in E; contradiction|]. now rewrite orb_false_r.
+Qed.
+Lemma prime_free_in s : prime_free s = true -> forall c, In c s -> c <> quote.
+Proof.
+  unfold prime_free, memc. intros H c Hin E. subst c. apply negb_true_iff in H.
+  assert (existsb (Ascii.eqb quote) s = true) by (apply existsb_exists; exists quote; split; [exact Hin|apply Ascii.eqb_refl]). congruence.
+Qed.
+Lemma nodelim_spec_gen fx t : nodelim is_delim_spec t = true -> nodelim (is_delim_gen fx) t = true.
+Proof.
+  unfold nodelim. rewrite !forallb_forall. intros H c Hc. specialize (H c Hc). apply negb_true_iff in H. apply negb_true_iff.
+  destruct (is_delim_gen fx c) eqn:E; [|reflexivity]. apply delim_gen_mono in E. congruence.
+Qed.
+
+(* for either value of the switch: on equations without the derivative mark — or with the repaired delimiter set — the loop
+   returns the sided word-wise substitution for the READER's notion of identifier (identifiers end at ') *)
+Theorem replace_flags_reader fx term rep : term <> [] -> nodelim is_delim_spec term = true ->
+  forall rhs lhs eq, (fx = true \/ prime_free eq = true) ->
+  replace_flags (is_delim_gen fx) term rep rhs lhs eq = Some (replace_words_sided is_delim_spec term rep rhs lhs eq).
+Proof.
+  intros Hne Hnd rhs lhs eq Hg.
+  rewrite (replace_flags_full (is_delim_gen fx) term rep Hne (nodelim_spec_gen fx term Hnd)) by (now destruct fx).
+  f_equal. unfold replace_words_sided, words. f_equal. apply wordsA_agree. intros c Hc.
+  destruct Hg as [->|Hp]; [reflexivity|]. apply delim_gen_agree. now apply (prime_free_in eq).
+Qed.
+
+Import Coq.Strings.String.
+(* before the repair the guard is needed: the primed left-hand side is not renamed *)
+Theorem replace_prime_before_fix : exists eq, prime_free eq = false /\
+  replace (is_delim_gen false) (list_ascii_of_string "x") (list_ascii_of_string "z") eq <>
+  Some (replace_words is_delim_spec (list_ascii_of_string "x") (list_ascii_of_string "z") eq).
+Proof. exists (list_ascii_of_string "x' = -x/tau"). split; [reflexivity|]. vm_compute. discriminate. Qed.
+
+(* ====================== D99: the caller's edit dictionary ====================== *)
+Section Reuse.
+  Variable V : Type.
+  Variable isd : ascii -> bool.
+
+  Lemma derive_fixed : forall k beqs bvars u vupd,
+    derive_reusing_gen V isd true k beqs bvars u vupd = derive_spec V isd k beqs bvars u vupd.
+  Proof. induction k as [|k IH]; intros; [reflexivity|]. cbn [derive_reusing_gen edit_after_gen]. unfold derive_spec in *. cbn [repeat]. now rewrite IH. Qed.
+
+  Lemma derive_same : forall k beqs bvars u vupd, edit_after_gen false u = u ->
+    derive_reusing_gen V isd false k beqs bvars u vupd = derive_spec V isd k beqs bvars u vupd.
+  Proof.
+    induction k as [|k IH]; intros beqs bvars u vupd H; [reflexivity|]. cbn [derive_reusing_gen]. unfold derive_spec in *. cbn [repeat].
+    rewrite H. now rewrite IH.
+  Qed.
+
+  (* for either value of the switch *)
+  Theorem derive_reusing_ok fx k beqs bvars u vupd : (fx = true \/ reuse_guard k u = true) ->
+    derive_reusing_gen V isd fx k beqs bvars u vupd = derive_spec V isd k beqs bvars u vupd.
+  Proof.
+    intros [->|Hg]; [apply derive_fixed|]. destruct fx; [apply derive_fixed|].
+    destruct u as [| l | e [|a add]]; try (apply derive_same; reflexivity).
+    cbn [reuse_guard] in Hg. destruct k as [|[|k]]; try reflexivity. discriminate.
+  Qed.
+End Reuse.
+
+Theorem derive_before_fix : exists beqs u,
+  derive_reusing_gen str is_delim false 2 beqs [] u [] <> derive_spec str is_delim 2 beqs [] u [].
+Proof.
+  exists [list_ascii_of_string "d/dt * r = -k*r"], (EqEdit (Build_edit [] [] [] []) [list_ascii_of_string "d/dt * x = r - x"]).
+  vm_compute. discriminate.
+Qed.
+
 Print Assumptions replace_full.
 Print Assumptions replace_flags_full.
+Print Assumptions replace_flags_reader.
+Print Assumptions derive_reusing_ok.
 Print Assumptions update_equation_full.
 Print Assumptions update_op_vars.
